@@ -217,6 +217,9 @@ func (s *store) Update(_ context.Context, filter, update any, opts ...UpdateOpti
 		if err != nil {
 			return 0, err
 		}
+		if doc == nil {
+			doc = types.NewMap()
+		}
 
 		doc, err = patch(doc, u)
 		if err != nil {
